@@ -364,6 +364,22 @@ func fieldEvents(fd *ast.FuncDecl, info *types.Info, sepCall string) (events []f
 				return true
 			case *ast.CallExpr:
 				if se, ok := v.Fun.(*ast.SelectorExpr); ok {
+					if id, ok := se.X.(*ast.Ident); ok && id.Name == "bytes" && sepCall == "IndexByte" {
+						switch se.Sel.Name {
+						case "SplitN":
+							if len(v.Args) == 3 {
+								if tv, ok := info.Types[v.Args[2]]; ok && tv.Value != nil {
+									if k, exact := constant.Int64Val(constant.ToInt(tv.Value)); exact && k >= 1 {
+										events = append(events, fieldEvent{field: "sep", seps: int(mult * (k - 1)), pos: v.Pos()})
+									}
+								} else {
+									undecided = "bytes.SplitN with a non-constant count"
+								}
+							}
+						case "Split":
+							events = append(events, fieldEvent{field: "splitall", pos: v.Pos()})
+						}
+					}
 					if se.Sel.Name == sepCall {
 						// WriteByte(Separator) / IndexByte(buf, Separator)
 						for _, a := range v.Args {
@@ -397,6 +413,9 @@ func fieldOrder(ev []fieldEvent) (order []string, seps int) {
 	for _, e := range ev {
 		if e.field == "sep" {
 			seps += e.seps
+			continue
+		}
+		if e.field == "splitall" {
 			continue
 		}
 		if len(order) == 0 || order[len(order)-1] != e.field {
@@ -433,6 +452,16 @@ func agreeFields(r *engine.Run) {
 		de, u2 := fieldEvents(dec, di, "IndexByte")
 		if u1 != "" || u2 != "" {
 			r.Undec(rule, T+"|separators", r.P.Pos(enc.Pos()), "codec shape outside the recognised forms: "+u1+u2)
+			continue
+		}
+		splitAll := false
+		for _, e := range de {
+			if e.field == "splitall" {
+				splitAll = true
+			}
+		}
+		if splitAll {
+			r.Fail(rule, T+"|unbounded field last", r.P.Pos(dec.Pos()), "Decode splits its input at every separator (bytes.Split): the last field (value bytes / raw key) may itself contain the separator byte and is cut at its first occurrence")
 			continue
 		}
 		eo, es := fieldOrder(ee)
